@@ -46,7 +46,7 @@ m = {
    "guard": "verif",
    "enable": "go build -tags verif (the harness module replaces berty.tech/go-ipfs-log by /repo and is always built with -tags verif)",
    "baseline_off_cmd": "cd /repo && GOFLAGS=-mod=mod GOPROXY=off GOSUMDB=off GOTOOLCHAIN=local go test -json -vet=off -count=1 -timeout 25m ./...",
-   "source_commits": [],
+   "source_commits": ["91e6abf"],
    "add_only": True,
  },
  "engines": [
